@@ -460,3 +460,27 @@ func (e *Engine) runConcrete(fn *ssa.Function, result *V) PathOutcome {
 	e.captureResult = nil
 	return out
 }
+
+// SetMaxSteps changes the per-path step bound of all engines.
+func (p *Pool) SetMaxSteps(n int64) {
+	for _, e := range p.Engines {
+		cfg := *e.cfg
+		cfg.MaxSteps = n
+		e.cfg = &cfg
+	}
+}
+
+// RunString runs fn() string concretely and returns its result.
+func (e *Engine) RunString(fn *ssa.Function) (string, PathOutcome) {
+	var got V
+	out := e.runConcrete(fn, &got)
+	if out.Kind != "ok" {
+		return "", out
+	}
+	s, ok := concStr(got)
+	if !ok {
+		out.Kind = "inconclusive"
+		out.Msg = "result is not a concrete string: " + got.String()
+	}
+	return s, out
+}
